@@ -32,6 +32,7 @@ Texts   == {AllTexts[n] : n \in 1..NTexts}
 Entry   == UNION {[ls -> Texts] : ls \in SUBSET Shipped}   \* language -> text, any subset of the languages
 Cats    == UNION {[ks -> Entry] : ks \in SUBSET {"k", "label.k"}}
 
+C    == Catalog([k \in DOMAIN cat |-> [l \in DOMAIN cat[k] |-> [c |-> cat[k][l]]]])
 Site == [kind |-> kind, key |-> "k", kc |-> KC, live |-> TRUE]
 FK   == FullKey(kind, "k", KC)
 FKC  == IF kind = "L" THEN LabelDot \o KC ELSE KC
@@ -40,13 +41,13 @@ Init == /\ cat \in Cats /\ kind \in Kinds /\ lang \in Shipped
         /\ pc = "lang" /\ txt = <<>> /\ found = FALSE /\ shown = <<>>
 
 TryLang == /\ pc = "lang"                                  \* text, ok := messages[key][lang]
-           /\ IF Has(cat, FK, lang)
+           /\ IF Has(C, FK, lang)
               THEN txt' = cat[FK][lang] /\ found' = TRUE /\ pc' = "render"
               ELSE UNCHANGED <<txt, found>> /\ pc' = IF Impl = "nofallback" THEN "key" ELSE "en"
            /\ UNCHANGED <<cat, kind, lang, shown>>
 
 TryEn   == /\ pc = "en"                                    \* text, ok = messages[key]["en"]
-           /\ IF Has(cat, FK, "en")
+           /\ IF Has(C, FK, "en")
               THEN txt' = cat[FK]["en"] /\ found' = TRUE /\ pc' = "render"
               ELSE UNCHANGED <<txt, found>> /\ pc' = "key"
            /\ UNCHANGED <<cat, kind, lang, shown>>
@@ -62,12 +63,12 @@ Render  == /\ pc = "render"                                \* strings.TrimPrefix
 Next == TryLang \/ TryEn \/ UseKey \/ Render
 Spec == Init /\ [][Next]_vars
 
-Holds == (pc = "done" /\ TableFailures(cat, Shipped, Site) = {}) =>
+Holds == (pc = "done" /\ TableFailures(C, Shipped, Site) = {}) =>
             /\ found
             /\ txt # <<>>
             /\ Placeholders(txt) = Placeholders(cat[FK]["en"])
 
 FunctionAgrees == pc = "done" =>
-            /\ found = Found(cat, FK, lang)
-            /\ found => (txt = Text(cat, FK, lang) /\ shown = Shown(kind, Text(cat, FK, lang)))
+            /\ found = Found(C, FK, lang)
+            /\ found => (txt = Text(C, FK, lang) /\ shown = Shown(kind, Text(C, FK, lang)))
 =============================================================================
